@@ -213,7 +213,7 @@ def profile_lifecycle(rng: random.Random) -> S.SimCfg:
     n = len(cfg.ids)
     for w in range(cfg.numnodes + 4):
         if rng.random() < (0.35 if w < cfg.numnodes else 0.2):
-            cfg.boot_crash[w] = rng.choice(["boot", "collect", "collected", "finish", "finish", "garbage"])
+            cfg.boot_crash[w] = rng.choice(["boot", "collect", "collected", "finish", "finish", "garbage", "interrupt"])
     for i in range(n):
         if rng.random() < 0.08:
             cfg.behav[i] = [S.Behav("crash")]
@@ -245,6 +245,9 @@ def profile_collecterr(rng: random.Random) -> S.SimCfg:
         if every or rng.random() < 0.5:
             cfg.collect_errors[w] = list(chosen)
     cfg.maxfail = rng.choice([0, 0, 1, 2])
+    for w in range(cfg.numnodes + 2):
+        if rng.random() < 0.25:
+            cfg.boot_crash[w] = "interrupt"     # this worker's session is interrupted right after collection (exit status 2)
     if rng.random() < 0.5:
         # modules that skip themselves at import time: every worker reports the skip, the run goes on
         sk = rng.sample(["t/opt.py|needs numpy", "t/win.py|windows only"], rng.randrange(1, 3))
@@ -527,7 +530,10 @@ def check_stop(s: S.Sim, f: Facts, fire: Any, kind: str, text: str) -> None:
     if kind == "interrupted" and text.startswith("stopping after") and cfg.maxfail:
         # --maxfail counts failed reports *of tests*; a crash report is published through the crash hook (which may have turned it
         # into a non-failure) and is not one of them
+        # ... and failed collection reports count as well (DSession.worker_collectreport -> _handlefailures; in the worker
+        # Session.pytest_collectreport), each text once (the controller de-duplicates what every worker reports)
         failed = [p for p in s.published if p[0] == "test" and p[3] != "???" and p[4] == "failed"]
+        failed += [p for p in s.published if p[0] == "collect" and p[4] == "failed" and "Different tests were collected" not in (p[5] or "")]
         if len(failed) < cfg.maxfail:
             props = ["C11"] + (["C15"] if cfg.requeue and s.requeued else [])
             fire(props, "maxfail-stop-without-failures", f"run stopped with {text!r} (--maxfail={cfg.maxfail}) after {len(failed)} failed test report(s); "
